@@ -4,6 +4,7 @@ import (
 	"fmt"
 	"go/ast"
 	"go/constant"
+	"go/token"
 	"go/types"
 	"regexp"
 	"sort"
@@ -243,54 +244,13 @@ func (c *Ctx) TypeTables(ob *core.Obligation) {
 	for _, t := range sum.Impls {
 		impls[t.Obj().Name()] = true
 	}
-	// 3. parseVar: case constant -> Value type of the returned expression
-	parseVar := map[string]string{}
-	pv := c.P.LookupFunc("internal/interpreter", "parseVar")
-	if pv == nil || c.P.Decl(pv) == nil {
-		ob.Unknown("anchor:interpreter.parseVar", "-", "parseVar not found")
+	// 3. the reader of variable text: declared type name -> Value type yielded (a switch / if
+	// chain on the type-name parameter, or a table of reader functions keyed by type name)
+	parseVar := c.variableReaders(impls)
+	if len(parseVar) == 0 {
+		ob.Unknown("anchor:interpreter.parseVar", "-", "no function or table that reads a variable's text by declared type found")
 		return
 	}
-	c.R.Functions[core.FuncName(pv)] = true
-	ast.Inspect(c.P.Decl(pv).Body, func(n ast.Node) bool {
-		cc, ok := n.(*ast.CaseClause)
-		if !ok {
-			return true
-		}
-		for _, e := range cc.List {
-			tv := in.TypesInfo.Types[e]
-			if tv.Value == nil || tv.Value.Kind() != constant.String {
-				continue
-			}
-			label := constant.StringVal(tv.Value)
-			vt := ""
-			for _, st := range cc.Body {
-				ast.Inspect(st, func(m ast.Node) bool {
-					ret, ok := m.(*ast.ReturnStmt)
-					if !ok || len(ret.Results) == 0 {
-						return true
-					}
-					r0 := ret.Results[0]
-					if in.TypesInfo.Types[r0].IsNil() {
-						return true
-					}
-					t := in.TypesInfo.Types[r0].Type
-					if tup, ok := t.(*types.Tuple); ok && tup.Len() > 0 {
-						t = tup.At(0).Type()
-					}
-					if nt, ok := types.Unalias(t).(*types.Named); ok && impls[nt.Obj().Name()] {
-						if vt != "" && vt != nt.Obj().Name() {
-							vt = "<several>"
-						} else {
-							vt = nt.Obj().Name()
-						}
-					}
-					return true
-				})
-			}
-			parseVar[label] = vt
-		}
-		return true
-	})
 	// 4. expect*: functions func(Value, Range) (*T, InterpreterError) with a type switch on Value
 	expects := c.leafExpectations() // reported type name -> accepted Value type
 	// compare
@@ -492,4 +452,137 @@ func isLenOfString(v ssa.Value) bool {
 		return okAll && some
 	}
 	return false
+}
+
+// variableReaders extracts "declared type name -> Value type yielded" from the interpreter:
+// (a) a function with a type-name string parameter compared with constants, each arm returning
+// values of one Value type; (b) a package-level map from type-name constants to reader functions.
+func (c *Ctx) variableReaders(impls map[string]bool) map[string]string {
+	out := map[string]string{}
+	valueT := c.P.Named("internal/interpreter", "Value")
+	isValue := func(t types.Type) bool { return valueT != nil && types.Identical(types.Unalias(t), valueT) }
+	var yielded func(v ssa.Value, depth int, into map[string]bool)
+	var fnYields func(fn *ssa.Function, depth int, into map[string]bool)
+	fnYields = func(fn *ssa.Function, depth int, into map[string]bool) {
+		if fn == nil || depth > 3 || len(fn.Blocks) == 0 {
+			return
+		}
+		for _, ret := range core.Returns(fn) {
+			if len(ret.Results) > 0 {
+				yielded(ret.Results[0], depth, into)
+			}
+		}
+	}
+	yielded = func(v ssa.Value, depth int, into map[string]bool) {
+		switch x := v.(type) {
+		case *ssa.Const:
+			return // nil
+		case *ssa.MakeInterface:
+			if nt, ok := types.Unalias(x.X.Type()).(*types.Named); ok && impls[nt.Obj().Name()] {
+				into[nt.Obj().Name()] = true
+			} else if p, ok := types.Unalias(x.X.Type()).(*types.Pointer); ok {
+				if nt, ok := types.Unalias(p.Elem()).(*types.Named); ok && impls[nt.Obj().Name()] {
+					into[nt.Obj().Name()] = true
+				}
+			}
+		case *ssa.Extract:
+			if call, ok := x.Tuple.(*ssa.Call); ok && x.Index == 0 {
+				yielded(call, depth, into)
+			}
+		case *ssa.Call:
+			if sc := x.Call.StaticCallee(); sc != nil && c.P.InModule(sc) {
+				r0 := sc.Signature.Results().At(0).Type()
+				if nt, ok := types.Unalias(r0).(*types.Named); ok && impls[nt.Obj().Name()] {
+					into[nt.Obj().Name()] = true
+				} else {
+					fnYields(sc, depth+1, into)
+				}
+			}
+		case *ssa.Phi:
+			for _, e := range x.Edges {
+				yielded(e, depth, into)
+			}
+		case *ssa.ChangeInterface:
+			yielded(x.X, depth, into)
+		}
+	}
+	one := func(m map[string]bool) string {
+		switch len(m) {
+		case 0:
+			return ""
+		case 1:
+			for k := range m {
+				return k
+			}
+		}
+		return "<several>"
+	}
+	for _, fn := range c.P.ModuleFunctions() {
+		if relOfFn(fn) != "internal/interpreter" {
+			continue
+		}
+		// (b) a table filled in a package initialiser
+		if fn.Name() == "init" || strings.HasPrefix(fn.Name(), "init#") {
+			for _, b := range fn.Blocks {
+				for _, in := range b.Instrs {
+					mu, ok := in.(*ssa.MapUpdate)
+					if !ok {
+						continue
+					}
+					label, ok := core.ConstString(mu.Key)
+					if !ok {
+						continue
+					}
+					var rf *ssa.Function
+					switch y := mu.Value.(type) {
+					case *ssa.Function:
+						rf = y
+					case *ssa.MakeClosure:
+						rf, _ = y.Fn.(*ssa.Function)
+					case *ssa.ChangeType:
+						rf, _ = y.X.(*ssa.Function)
+					}
+					if rf == nil || rf.Signature.Results().Len() != 2 || !isValue(rf.Signature.Results().At(0).Type()) {
+						continue
+					}
+					into := map[string]bool{}
+					fnYields(rf, 0, into)
+					out[label] = one(into)
+					c.Touch(rf)
+				}
+			}
+			continue
+		}
+		// (a) comparisons of a string parameter with constants
+		if fn.Signature.Results().Len() != 2 || !isValue(fn.Signature.Results().At(0).Type()) {
+			continue
+		}
+		for _, b := range fn.Blocks {
+			iff, ok := b.Instrs[len(b.Instrs)-1].(*ssa.If)
+			if !ok {
+				continue
+			}
+			bo, ok := iff.Cond.(*ssa.BinOp)
+			if !ok || bo.Op != token.EQL {
+				continue
+			}
+			if _, isP := bo.X.(*ssa.Parameter); !isP {
+				continue
+			}
+			label, ok := core.ConstString(bo.Y)
+			if !ok {
+				continue
+			}
+			arm := b.Succs[0]
+			into := map[string]bool{}
+			for _, ret := range core.Returns(fn) {
+				if arm.Dominates(ret.Block()) && len(ret.Results) > 0 {
+					yielded(ret.Results[0], 0, into)
+				}
+			}
+			out[label] = one(into)
+			c.Touch(fn)
+		}
+	}
+	return out
 }
